@@ -92,6 +92,8 @@ for _s in ('union', 'intersection'):
     for _o in ('union', 'intersection'):
         op(f'merge:{_s}:{_o}', arity=2)(lambda b, t, o, a, ao, inplace, s=_s, oo=_o: t.merge(o, sample=s, observation=oo))
 op('align_to', arity=2)(lambda b, t, o, a, ao, inplace: t.align_to(o, axis='detect'))
+for _m in ('both', 'sample', 'observation'):
+    op(f'align_to-already-aligned:{_m}', arity=2)(lambda b, t, o, a, ao, inplace, m=_m: t.align_to(o, axis=m))
 
 # counts-only operations (integer data): subsample by counts
 COUNT_OPS = {}
